@@ -405,14 +405,21 @@ def encode(node, table, d, picker=None, tuple_notation=True, layout=None, marks=
 
 
 # ----------------------------------------------------------------------------- strict decoder
-def decode(node, table, buf, pos=0, trace=None, depth=0):
+def decode(node, table, buf, pos=0, trace=None, depth=0, conv=None):
     """Returns (value, new_pos).  trace (list) receives union branch indices in
-    traversal order."""
+    traversal order.  conv(node, raw) converts leaves that carry a logical type."""
+    if conv is not None and "logical" in node:
+        v, pos = decode(node, table, buf, pos, trace, depth, None)
+        return conv(node, v), pos
+    return _decode(node, table, buf, pos, trace, depth, conv)
+
+
+def _decode(node, table, buf, pos, trace, depth, conv):
     if depth > 400:
         raise RefError("other", "too deep")
     k = node["k"]
     if k == "ref":
-        return decode(table[node["name"]], table, buf, pos, trace, depth)
+        return decode(table[node["name"]], table, buf, pos, trace, depth, conv)
     if k == "null":
         return None, pos
     if k == "boolean":
@@ -463,18 +470,18 @@ def decode(node, table, buf, pos=0, trace=None, depth=0):
             start = pos
             for _ in range(c):
                 if k == "array":
-                    v, pos = decode(node["items"], table, buf, pos, trace, depth + 1)
+                    v, pos = decode(node["items"], table, buf, pos, trace, depth + 1, conv)
                     res.append(v)
                 else:
-                    key, pos = decode({"k": "string"}, table, buf, pos, trace, depth + 1)
-                    v, pos = decode(node["values"], table, buf, pos, trace, depth + 1)
+                    key, pos = decode({"k": "string"}, table, buf, pos, trace, depth + 1, conv)
+                    v, pos = decode(node["values"], table, buf, pos, trace, depth + 1, conv)
                     res[key] = v
             if size is not None and pos - start != size:
                 raise RefError("other", "block byte size does not match")
     if k == "record":
         res = {}
         for f in node["fields"]:
-            res[f["name"]], pos = decode(f["type"], table, buf, pos, trace, depth + 1)
+            res[f["name"]], pos = decode(f["type"], table, buf, pos, trace, depth + 1, conv)
         return res, pos
     if k == "union":
         i, pos = dec_long(buf, pos)
@@ -482,7 +489,7 @@ def decode(node, table, buf, pos=0, trace=None, depth=0):
             raise RefError("index", f"union index {i}")
         if trace is not None:
             trace.append(i)
-        return decode(node["branches"][i], table, buf, pos, trace, depth + 1)
+        return decode(node["branches"][i], table, buf, pos, trace, depth + 1, conv)
     raise RefError("other", k)
 
 
